@@ -150,3 +150,63 @@ def immutable_any_name(meth):
         raises={"UBXMessageError": None},
         ensures_exc=[("frame-unchanged", "same_frame(self, old(snapshot(self)))")],
         modifies=[])
+
+
+def c15_set_attribute_bits(arg):
+    """keyword branch of _set_attribute_bits for an arbitrary int value: either refused with a translated exception, or
+    the value fits its slot and only that slot of the bitfield changes"""
+    bfoffset, width = arg
+    from pvc.builtins_model import KwMap
+
+    def kw(ex, name):
+        import z3
+        from pvc.values import SInt
+        e = z3.Int("flagval")
+        ex.st.inputs["flagval"] = ("int", e)
+        return KwMap({"flag": SInt(e)})
+
+    def lst(ex, name):
+        return ex.st.alloc("list", None, items=[])
+
+    return Contract(
+        M + "_set_attribute_bits",
+        params={"self": msg_object(immutable=False), "bitfield": "nat", "bfoffset": ("const", bfoffset),
+                "key": ("const", "flag"), "keyt": ("const", "U%03d" % width), "index": lst, "**": kw},
+        requires=[f"0 <= bitfield < {1 << bfoffset}"],
+        ensures=[("fits-its-slot", f"0 <= kwargs['flag'] < {1 << width}"),
+                 ("only-its-slot-changes", f"result[0] == bitfield + kwargs['flag'] * {1 << bfoffset}"),
+                 ("offset-advances", f"result[1] == {bfoffset + width}")],
+        raises={k: None for k in ("TypeError", "OverflowError", "ValueError", "AttributeError", "IndexError", "error")},
+        modifies=["self.flag"])
+
+
+def c15_set_attribute_single(arg):
+    """keyword branch of _set_attribute_single for one field of type T and a value of an arbitrary Python kind:
+    either a translated exception, or exactly size(T) bytes are appended and the earlier payload bytes are untouched"""
+    T, kind, scaled = arg
+    from pvc.builtins_model import KwMap
+    from contracts.helpers import any_value, tsize, c15_val2bytes, ANY_KINDS
+    n = tsize(T)
+
+    def kw(ex, name):
+        return KwMap({"x": any_value(kind, T)(ex, "val")})
+
+    def lst(ex, name):
+        return ex.st.alloc("list", None, items=[])
+
+    def setup_registry(reg):
+        fam = {T: c15_val2bytes((T, kind if not scaled else "int"))}
+        reg.family("pyubx2.ubxhelpers.val2bytes", "att", fam)
+
+    c = Contract(
+        M + "_set_attribute_single",
+        params={"self": msg_object(payload="bytes", immutable=False), "anam": ("const", "x"),
+                "adef": ("const", [T, 0.01] if scaled else T), "offset": "nat", "index": lst, "**": kw},
+        ensures=[("appends-exactly-the-field", f"len(self._payload) == len(old(self._payload)) + {n}"),
+                 ("earlier-bytes-untouched", "self._payload[0:len(old(self._payload))] == old(self._payload)"),
+                 ("offset-advances", f"result == offset + {n}")],
+        raises={k: None for k in ("TypeError", "OverflowError", "ValueError", "AttributeError", "IndexError", "error",
+                                  "UBXTypeError", "ZeroDivisionError")},
+        modifies=["self._payload", "self.x"])
+    c.registry_setup = setup_registry
+    return c
